@@ -1,0 +1,36 @@
+//! Read-only observers for external verification harnesses (feature `verif-hooks`).
+//! Nothing in here is called by the library itself.
+
+/// One arena slot as seen from outside.
+#[derive(Clone, Debug)]
+pub struct VerifSlot<T> {
+    pub parent: u32,
+    pub left: u32,
+    pub right: u32,
+    pub red: bool,
+    pub payload: T,
+}
+
+/// Whole arena of a tree: root, every slot (index == position), the free list in order.
+#[derive(Clone, Debug)]
+pub struct VerifSnapshot<T> {
+    pub root: u32,
+    pub slots: Vec<VerifSlot<T>>,
+    pub free: Vec<u32>,
+    pub free_capacity: usize,
+}
+
+/// One physically stored copy of a value in a segment tree.
+#[derive(Clone, Debug)]
+pub struct VerifSegCopy<V> {
+    pub place: usize,
+    pub mask: u64,
+    pub val: V,
+}
+
+/// All physically stored copies of a segment tree and the number of place lists.
+#[derive(Clone, Debug)]
+pub struct VerifSegDump<V> {
+    pub places: usize,
+    pub copies: Vec<VerifSegCopy<V>>,
+}
